@@ -28,7 +28,7 @@ EXPLANATION = (
     '(6) with the floor-halving loop lemma for setUsedSize (x*2^n <= s, x < 256) exact constant evaluation of getIndex at the '
     'extreme key for every (topBits in 128..255, shift in 2..40) shows idx+3 < topBits*2^shift <= usedSize.'
     ' In probe a loaded record is written back or handed out only after the key decoded from that very load matched (typestate, not mere dominance).'
-    ' Added later; (9) in reSize tableSize is zeroed between the release of the buffer and every allocation that may throw. (3, revised) every value the generation counter takes fits its field, or setBits confines an over-wide value to the field (evaluated; replaces a comparison of the wrap mask with the field width).')
+    ' Added later; (9) in reSize tableSize is zeroed between the release of the buffer and every allocation that may throw. (3, revised) every value the generation counter takes fits its field, or setBits confines an over-wide value to the field (evaluated; replaces a comparison of the wrap mask with the field width). (10) updateTB installs a generator only in a table larger than the reservation plus its margin (admission test evaluated with unsigned wrap for 1 .. 64 MB).')
 UNDECIDED = ('torn-read freedom beyond "atomics + xor check are in place" (a memory-model argument); replacement-policy quality; '
              'tables below 512 entries (outside the property domain).')
 ASSUMPTIONS = ['table sizes >= 512 entries (property domain); usedSize <= 2^48 entries',
@@ -57,6 +57,7 @@ def run(fb, rep, tier):
     C12.c1_typestate(fb, rep, clause='C08.7')
     c8_replace_decisions(fb, rep)
     c9_resize_exception_safety(fb, rep)
+    c10_reservation_admission(fb, rep)
 
 
 # ----------------------------------------------------------------------------- .1
@@ -875,3 +876,33 @@ def c9_resize_exception_safety(fb, rep):
     # and the early return compares with that recorded size
     early = [bid for bid, blk in f.blocks.items() if (blk.get('term') or {}).get('c') == 'IfStmt' and 'tableSize' in show(eff_cond(blk['term']), 60) and '==' in show(eff_cond(blk['term']), 60)]
     rep.ob(clause, 'K3 invariant at throw points', 'reSize has the "same size, nothing to do" early return that makes the recorded size matter', bool(early), f.where, '', f.sname)
+
+
+# ----------------------------------------------------------------------------- .10
+
+def c10_reservation_admission(fb, rep, clause='C08.10'):
+    from .. import regions as G
+    """K12 the on-demand tablebase takes a fixed number of bytes from the end of the table and the hash keeps the rest: updateTB
+    may start a generation only if the table is larger than that reservation plus the margin it states.  The admission
+    test is evaluated (sizes are unsigned: a difference wraps) for table sizes of 1 .. 6 MB, for which the block that
+    installs a generator must be unreachable, and for 8 / 16 / 64 MB, for which it must be reachable.  A wrapped
+    difference admits tables *smaller* than the reservation; setUsedSize(tableSize - reserved) then wraps as well and
+    getIndex() leaves the table for almost every key."""
+    up = fb.find1(TT + '::updateTB')
+    if rep.need(clause, up, TT + '::updateTB') is None:
+        return
+    from . import C12
+    tt_ids, tb_id, tbsize = C12.tb_size_roles(up)
+    if rep.need(clause, tbsize, 'the table-size local and the reservation constant of updateTB') is None:
+        return
+    installs = [(b, i, e) for b, i, e in up.events() if (e.get('k') == 'call' and 'make_unique' in cname(e) and 'TBGenerator' in (e.get('f') or '') + (e.get('t') or '')) or
+                (e.get('k') == 'call' and e.get('op') == '=' and ap(e.get('recv')) == 'this.tbGen' and e.get('args') and not ((_strip(e['args'][0]) or {}).get('k') in ('nullptr', 'null')))]
+    if rep.need(clause, installs, 'the statement that installs a generator in updateTB') is None:
+        return
+    b0 = installs[0][0]
+    sz = lambda v: (lambda t: ('v', v) if t.get('k') == 'var' and t.get('id') in tt_ids else None)
+    MB = 1 << 20
+    small = [m for m in (1, 2, 3, 4, 5, 6) if not G.excluded_under(up, b0, sz(m * MB))]
+    large = [m for m in (8, 16, 64) if G.excluded_under(up, b0, sz(m * MB))]
+    rep.ob(clause, 'K12 range', 'updateTB installs a generator only in a table larger than the reservation (%d bytes) plus its margin' % tbsize, not small and not large, R.site(up, installs[0][2]),
+           'admitted although too small: %s MB; refused although large enough: %s MB' % (small, large), up.sname)
